@@ -20,6 +20,8 @@ for s in m.get('detected_by',[]):
     for c in re.findall(r'C\d\d',s):
         if c not in ids: ids.append(c)
 print(' '.join(ids or [m['property']]))")
+  obs=$(python3 -c "import json;print(json.load(open('$d/meta.json')).get('obsolete_after',''))")
+  if [ -n "$obs" ] && git -C $R merge-base --is-ancestor $obs HEAD 2>/dev/null; then echo "$n ($prop): obsolete after $obs (no longer breaks the property)"; continue; fi
   if ! git -C $R apply $PWD/$d/patch.diff 2>/dev/null; then echo "$n: patch does not apply"; continue; fi
   res=""
   for c in $checks; do
